@@ -15,7 +15,7 @@ known findings it must violate them (otherwise the Defects set is stale)."""
 import collections, json, os, re
 import vlib
 
-PROPERTIES = ["C38", "C39", "C40"]
+PROPERTIES = ["C38", "C39", "C40", "C41"]
 SPEC = "Crdt"
 
 # deviations of the code that are recorded as known findings (see known_findings.d/crdt.json); the conformance
@@ -42,7 +42,108 @@ def cut(rows, line):
     return rows[start:end], i - start
 
 
+REPL_DEFECTS = ["UpdateIgnoresTombstone", "DeltaIgnoresTombstone", "FullStateIgnoresTombstone", "PruneDropsTombstones"]
+
+
+def run_replicator(ctx, pid):
+    """C41 on real replicator actors (specs/Crdt/Replicator.tla)."""
+    quick = ctx.quick
+    mc = ctx.tlc_must_hold(SPEC, "MC_Replicator.cfg" if quick else "MC_Replicator_t.cfg", module="MC_Replicator",
+                           timeout=600 if quick else 2400, workers=4 if quick else 6)
+    ctx.log("design: tombstoned keys stay out of the store in %d distinct states" % mc.distinct)
+    with open(os.path.join(vlib.VERIF, "specs", SPEC, "MC_Replicator.cfg")) as f:
+        base = f.read()
+    for dname in (REPL_DEFECTS[1:2] if quick else REPL_DEFECTS):     # vacuity: each missing check is seen by the invariant
+        cfgp = ctx.tmp("MC_Replicator_%s.cfg" % dname)
+        with open(cfgp, "w") as f:
+            f.write(base.replace("Defects = {}", 'Defects = {"%s"}' % dname))
+        r = ctx.tlc(SPEC, "MC_def.cfg", module="MC_Replicator", files={"MC_def.cfg": cfgp}, expect_fail=True, timeout=600,
+                    workers=2, name="def-" + dname)
+        if not r.violated:
+            raise vlib.Infra("Replicator.tla with Defects={%s} does not violate the tombstone properties (vacuous spec)" % dname)
+    exh, _ = gen_r(ctx, "Gen_Replicator.cfg" if quick else "Gen_Replicator_t.cfg")
+    sim, _ = gen_r(ctx, "Sim_Replicator.cfg", simulate="num=%d" % (150 if quick else 2000), name="rsim", timeout=1500)
+    if len(exh) < 1000 or len(sim) < 200:
+        raise vlib.Infra("behaviour generation produced too little (%d exhaustive, %d random)" % (len(exh), len(sim)))
+    sim = vlib.sample(ctx.rng, sim, 1200 if quick else 20000)
+    behaviours = exh + sim
+    bfile = ctx.tmp("behaviours.ndjson")
+    vlib.write_ndjson(bfile, behaviours)
+    ctx.log("behaviours: %d exhaustive (depth %d, 2 replicas, 1 key) + %d random (depth 12, 3 replicas, 2 keys)"
+            % (len(exh), len(exh[0]["h"]), len(sim)))
+    exe = ctx.build("crdt")
+    trace = ctx.tmp("trace.ndjson")
+    p = ctx.run([exe, "replicator", bfile, trace], timeout=1800)
+    stats = json.loads(p.stdout.strip().splitlines()[-1])
+    ctx.log("real execution: %s" % stats)
+    if stats["watchdog"] > len(behaviours) // 50:
+        raise vlib.Infra("too many behaviours abandoned by the watchdog: %d" % stats["watchdog"])
+    nlines = stats["events"]
+    mon = ctx.tlc(SPEC, "Mon_Replicator.cfg", dfs=True, files={"trace.ndjson": trace}, timeout=2400, heap="12g")
+    if mon.depth != nlines + 1:
+        raise vlib.Infra("monitor did not consume the whole trace (%d of %d)" % (mon.depth - 1, nlines))
+    mism = [(int(a), b, c) for a, b, c in re.findall(r'<<"MISMATCH", (\d+), "(\w+)", "(\w+)">>', mon.out)]
+    conf = ctx.tlc(SPEC, "Trace_Replicator.cfg", dfs=True, files={"trace.ndjson": trace}, timeout=2400, heap="12g", expect_fail=True)
+    drift = None
+    rows = None
+    if conf.violated:
+        drift = "invariant %s violated on the real trace at line %d" % (conf.violated, conf.depth)
+    elif conf.error:
+        drift = "conformance spec could not evaluate line %d" % conf.depth
+    elif conf.depth != nlines + 1:
+        rows = vlib.read_ndjson(trace)
+        e = rows[max(conf.depth, 1) - 1]
+        drift = "real trace rejected at line %d of %d: %s" % (conf.depth, nlines, json.dumps({x: e.get(x) for x in ("a", "r", "q", "k", "id", "out", "pub", "note")}))
+    if drift:
+        ctx.log("conformance drift (not a verdict): " + drift)
+
+    def rshape(b):
+        return json.dumps([[s["a"], s["r"], s["q"], s["k"], s["id"]] for s in b["h"]])
+
+    def nontrivial(b):     # a tombstone exists and something arrives afterwards at a replica
+        acts = [s["a"] for s in b["h"]]
+        return "Delete" in acts and any(a.startswith("Recv") or a == "Update" for a in acts[acts.index("Delete") + 1:])
+    shapes = {rshape(b) for b in behaviours if nontrivial(b)}
+    cov = {
+        "states": ctx.states()[0], "transitions": ctx.states()[1],
+        "traces_validated_against_impl": len(behaviours),
+        "samples": [json.loads(rshape(b)) for b in (exh[len(exh) // 3], sim[0], sim[-1])],
+        "evaluations": nlines, "distinct_nontrivial": len(shapes),
+        "rule": "every step history of length D over {Update, Delete, RecvDelta, RecvTomb, SendDigest, RecvDigest, RecvFull, Prune} x 2 "
+                "replicas x 1 key (TLC BFS) plus seeded TLC random walks (3 replicas, 2 keys, depth 12), executed on real replicator "
+                "actors; non-trivial = distinct history with a Delete followed by an update or an incoming message; evaluations = recorded "
+                "real steps, each followed by a public Get of every key on every replica",
+        "exhaustive": True, "exhaustive_histories": len(exh), "random_walks": len(sim), "real": stats,
+        "conformance_drift": drift, "monitor_mismatches": len(mism),
+    }
+    assumptions = [
+        "one replicator per in-process actor system, no cluster: coordinated reads/writes (WriteTo/ReadFrom != 0), cross-datacenter batches, "
+        "snapshot restore and supervisor restarts of the replicator are not explored",
+        "tombstone TTL = 1h: no expiry inside a run; prune is explored only before expiry",
+        "publications are captured by a collector subscribed to the real TopicActor and delivered by the driver in the order TLC chose",
+    ]
+    if mism:
+        rows = rows or vlib.read_ndjson(trace)
+        line, r, k = mism[0]
+        beh, i = cut(rows, line)
+        snippet = ctx.tmp("violation.ndjson")
+        vlib.write_ndjson(snippet, beh[:i + 1])
+        rp = ctx.save_replay("seed%d" % ctx.seed, snippet)
+        ctx.evidence("model_checking", cov, assumptions, violations=len(mism))
+        raise vlib.Violation(pid, rp, "monitor: replica %s holds the tombstone of key %s but Get returns a value after step %s (%d mismatches)"
+                             % (r, k, json.dumps({x: beh[i][x] for x in ("a", "r", "q", "k", "id")}), len(mism)))
+    ctx.evidence("model_checking", cov, assumptions)
+
+
+def gen_r(ctx, cfg, simulate=None, timeout=900, name=None):
+    r = ctx.tlc(SPEC, cfg, module="Gen_Replicator", simulate=simulate, depth=40 if simulate else None, deadlock_check=False,
+                timeout=timeout, workers=1 if simulate else None, name=name or cfg[:-4])
+    return vlib.parse_sim_behaviours(r.out), r
+
+
 def run(ctx, pid):
+    if pid == "C41":
+        return run_replicator(ctx, pid)
     quick = ctx.quick
     # ---- 1. design level ---------------------------------------------------------------------------------
     mc = ctx.tlc_must_hold(SPEC, "MC_Crdt.cfg" if quick else "MC_Crdt_t.cfg", module="MC_Crdt", timeout=600 if quick else 2400,
